@@ -2027,9 +2027,17 @@ func (self *Node) parseRaw(full bool) {
 		parser.noLazy = true
 		parser.loadOnce = true
 		n, e = parser.Parse()
-		self.assign(n)
+		if e == 0 {
+			self.assign(n)
+		}
 	} else {
 		*self, e = parser.Parse()
+	}
+	if e != 0 && lock {
+		// keep the mutex (it is held now, and other readers may be waiting on it)
+		// and publish the error node like any other parsed node
+		self.assign(*newSyntaxError(parser.syntaxError(e)))
+		return
 	}
 	if e != 0 {
 		*self = *newSyntaxError(parser.syntaxError(e))
